@@ -197,12 +197,10 @@ func (sm *SessionManager) GetSession(r *http.Request) (*SessionData, error) {
 		return nil, fmt.Errorf("failed to get main session: %w", err)
 	}
 
-	// Check for absolute session timeout.
+	// Check for absolute session timeout (applied below, once every part is loaded).
+	sessionExpired := false
 	if createdAt, ok := sessionData.mainSession.Values["created_at"].(int64); ok {
-		if time.Since(time.Unix(createdAt, 0)) > absoluteSessionTimeout {
-			sessionData.Clear(r, nil)
-			return nil, fmt.Errorf("session expired")
-		}
+		sessionExpired = time.Since(time.Unix(createdAt, 0)) > absoluteSessionTimeout
 	}
 
 	sessionData.accessSession, err = sm.getOrNewSession(r, accessTokenCookie)
@@ -228,6 +226,20 @@ func (sm *SessionManager) GetSession(r *http.Request) (*SessionData, error) {
 	// Retrieve chunked token sessions.
 	sm.getTokenChunkSessions(r, accessTokenCookie, sessionData.accessTokenChunks)
 	sm.getTokenChunkSessions(r, refreshTokenCookie, sessionData.refreshTokenChunks)
+
+	// A session past the absolute timeout is treated as logged out: every stored
+	// value is dropped, so the request is handled like one without cookies and
+	// the next Save overwrites the old cookies.
+	if sessionExpired {
+		sm.logger.Debugf("Session exceeded the absolute timeout; treating it as logged out")
+		for _, s := range []*sessions.Session{sessionData.mainSession, sessionData.accessSession, sessionData.refreshSession} {
+			for k := range s.Values {
+				delete(s.Values, k)
+			}
+		}
+		sessionData.clearTokenChunks(r, sessionData.accessTokenChunks)
+		sessionData.clearTokenChunks(r, sessionData.refreshTokenChunks)
+	}
 
 	return sessionData, nil
 }
